@@ -29,8 +29,8 @@ func vpC22Commits(s *BadgerStore, f func()) uint64 {
 }
 
 func TestVP_C22_single_commit(t *testing.T) {
-	c := kit.New(t, "C22", "rapid: model-built ledgers (deposits, transfers, submits, claims, mints, pending and finalized) on which further admissions (Validate incl. ghost-key reservation, LockInputs over 1..4 inputs, deposit and mint locks, WriteTransaction) and finalizations (WriteSnapshot of 1..n pending batchable members, snapshots re-finalizing an already final member on another chain) are issued one store call at a time; oracle: the number of Badger commits consumed by each call (difference of DB.MaxVersion around it) is exactly 1 for a successful WriteSnapshot / WriteTransaction of a new body, at most 1 for every other call and 0 for a failed call, and a full key/value dump is unchanged by a failed call; non-trivial = WriteSnapshot with >=2 members or LockInputs with >=2 inputs; distinct by call kind + snapshot/transaction hash")
-	c.Require("WriteSnapshot", "WriteSnapshot-batch", "LockInputs-multi", "WriteTransaction", "Validate", "refinalize", "failed-call")
+	c := kit.New(t, "C22", "rapid: model-built ledgers (deposits, transfers, submits, claims, mints, pending and finalized) on which further admissions (Validate incl. ghost-key reservation, LockInputs over 1..4 inputs, deposit and mint locks, WriteTransaction) and finalizations (WriteSnapshot of 1..n pending batchable members, snapshots re-finalizing an already final member on another chain) are issued one store call at a time, followed by a round transition (StartNewRound of a chain whose head round holds snapshots) and an empty-head reference update; oracle: the number of Badger commits consumed by each call (difference of DB.MaxVersion around it) is exactly 1 for a successful WriteSnapshot / WriteTransaction of a new body, at most 1 for every other call and 0 for a failed call, and a full key/value dump is unchanged by a failed call; non-trivial = WriteSnapshot with >=2 members or LockInputs with >=2 inputs; distinct by call kind + snapshot/transaction hash")
+	c.Require("WriteSnapshot", "WriteSnapshot-batch", "LockInputs-multi", "WriteTransaction", "Validate", "refinalize", "failed-call", "round-transition", "empty-head-update")
 	kit.SetChecks(kit.N(60, 6000))
 	rapid.Check(t, func(t *rapid.T) {
 		l := vpLNewLedger(7, "c22s", 5)
@@ -146,6 +146,60 @@ func TestVP_C22_single_commit(t *testing.T) {
 				}
 				judge("LockInputs", "foreign-"+other.String(), n, true, false, true, "failed-call")
 			}
+		}
+		// round transitions: closing the head round of a chain that holds
+		// snapshots (final round record, link and new head in one write), then
+		// moving the empty head to another external reference
+		for tries := 0; tries < 3; tries++ {
+			ci := rapid.IntRange(0, len(l.NodeIds)-1).Draw(t, "round_chain")
+			oi := (ci + 1 + rapid.IntRange(0, len(l.NodeIds)-2).Draw(t, "round_ext")) % len(l.NodeIds)
+			node := l.NodeIds[ci]
+			head, err := l.Store.ReadRound(node)
+			if err != nil || head == nil {
+				t.Fatalf("head round: %v", err)
+			}
+			topos, err := l.Store.ReadSnapshotsForNodeRound(node, head.Number)
+			if err != nil {
+				t.Fatalf("round snapshots: %v", err)
+			}
+			if len(topos) == 0 {
+				continue
+			}
+			var snaps []*common.Snapshot
+			for _, tp := range topos {
+				sn := tp.Snapshot
+				sn.Hash = sn.PayloadHash()
+				snaps = append(snaps, sn)
+			}
+			start, _, selfHash := common.ComputeRoundHash(node, head.Number, snaps)
+			ext, err := l.Store.ReadRound(l.NodeIds[oi])
+			if err != nil || ext == nil {
+				t.Fatalf("external head: %v", err)
+			}
+			refs := &common.RoundLink{Self: selfHash, External: ext.References.Self}
+			var serr error
+			n := vpC22Commits(l.Store, func() { serr = l.Store.StartNewRound(node, head.Number+1, refs, start) })
+			judge("StartNewRound", fmt.Sprint(node, head.Number+1), n, serr != nil, true, true, "round-transition")
+			if serr != nil {
+				t.Fatalf("round transition of chain %d to round %d: %v", ci, head.Number+1, serr)
+			}
+			o2 := (ci + 1 + rapid.IntRange(0, len(l.NodeIds)-2).Draw(t, "round_ext2")) % len(l.NodeIds)
+			ext2, err := l.Store.ReadRound(l.NodeIds[o2])
+			if err != nil || ext2 == nil {
+				t.Fatalf("external head: %v", err)
+			}
+			if link, _ := l.Store.ReadLink(node, l.NodeIds[o2]); link > ext2.Number-1 {
+				continue
+			}
+			var uerr error
+			n = vpC22Commits(l.Store, func() {
+				uerr = l.Store.UpdateEmptyHeadRound(node, head.Number+1, &common.RoundLink{Self: selfHash, External: ext2.References.Self})
+			})
+			judge("UpdateEmptyHeadRound", fmt.Sprint(node, head.Number+1, o2), n, uerr != nil, true, true, "empty-head-update")
+			if uerr != nil {
+				t.Fatalf("empty head update of chain %d: %v", ci, uerr)
+			}
+			break
 		}
 	})
 }
